@@ -27,7 +27,7 @@ from vlib import InternalError
 
 PID = "C08"
 
-F_CTL, F_BLOCK, F_BYVAL, F_DECOY, F_CTLCLI, F_NOTRAFFIC, F_CTLCLI2, F_BLKWAKE = 1, 2, 4, 8, 16, 32, 64, 128
+F_CTL, F_BLOCK, F_BYVAL, F_DECOY, F_CTLCLI, F_NOTRAFFIC, F_CTLCLI2, F_BLKWAKE, F_HANDOVER = 1, 2, 4, 8, 16, 32, 64, 128, 256
 CLS = {1: "socket", 2: "accept4", 4: "epoll_create1", 8: "eventfd", 16: "timerfd_create", 32: "connect", 64: "bind",
        128: "listen", 256: "open", 512: "setsockopt", 1024: "so_error", 2048: "fread"}
 EMFILE, ENFILE, ENOMEM, EADDRINUSE, EACCES, ECONNREFUSED, ETIMEDOUT, EADDRNOTAVAIL, ENOPROTOOPT, ECONNABORTED, EISDIR = \
@@ -77,6 +77,13 @@ def scenarios(tier):
         sc.append(S(tp, F_CTL, fork=1, errs="none"))
     for tp in (["tcp"] if q else ["ux", "uxf", "tcp", "tls", "utls"]):
         sc.append(S(tp, F_CTL | F_CTLCLI, fork=3, errs="none"))
+    # fork with the roles swapped: the creating process calls xcm_cleanup, the child owns, uses and closes the sockets
+    for tp in (["ux", "uxf", "tcp", "utls"] if q else ALL_TP):
+        sc.append(S(tp, F_CTL | F_HANDOVER, fork=3, errs="none"))
+    for tp in (["tcp", "uxf"] if q else ALL_TP):
+        sc.append(S(tp, F_CTL | F_HANDOVER, fork=1, errs="none"))
+    for tp in (["btls"] if q else ["tls", "btls", "ux"]):
+        sc.append(S(tp, F_HANDOVER, fork=3, errs="none"))
     # connection attempts still in progress (close and cleanup of a connecting socket)
     for tp in (["tcp"] if q else ["tcp", "tls", "btcp", "utls"]):
         sc.append(S(tp, 0, k=2, scen="conning", errs="first"))
@@ -95,7 +102,8 @@ def describe(s):
     f = s["flags"]
     words = [s["scen"], s["tp"], "k=%d" % s["k"]]
     for bit, w in ((F_CTL, "ctl"), (F_BLOCK, "blocking"), (F_BYVAL, "creds-by-value"), (F_DECOY, "decoy"),
-                   (F_CTLCLI, "ctl-client"), (F_NOTRAFFIC, "no-traffic"), (F_CTLCLI2, "second-ctl-client"), (F_BLKWAKE, "accept-woken-by-ctl")):
+                   (F_CTLCLI, "ctl-client"), (F_NOTRAFFIC, "no-traffic"), (F_CTLCLI2, "second-ctl-client"), (F_BLKWAKE, "accept-woken-by-ctl"),
+                   (F_HANDOVER, "sockets-handed-to-the-forked-child")):
         if f & bit:
             words.append(w)
     if s["fork"]:
